@@ -1173,3 +1173,68 @@ Proof.
   replace (len pre + 1 + len name + (len inner + 2 + len ename) + (len ews + 1) - len pre) with n by (unfold n; lia).
   eexists. split; [reflexivity|]. cbn [ltext lz intag rawtag lerr lbuf]. repeat split.
 Qed.
+
+(* ---- raw text without any '<' (also for script) ------------------------------------------------------------------------ *)
+Lemma rawtext_loop_nolt raw z content ename erest has :
+  reads z (content ++ 60 :: 47 :: ename ++ erest) -> Forall (fun c => c <> 60) content ->
+  Forall (fun c => is_letter c = true) ename -> to_hash (map lower ename) = Ok raw ->
+  (exists c r, erest = c :: r /\ is_letter c = false) -> lstart z <= lpos z ->
+  loop (fuel_of z) (rawtext_body no_tmpl raw) (z, has) = Ok (mkLx (lbuf z) (lpos z + len content) (lstart z), has).
+Proof.
+  intros Hr Hc Hlet Hhash (ce & re & Ee & Hce) Hst.
+  pose proof (len_nonneg content). pose proof (len_nonneg ename). pose proof (len_nonneg erest).
+  assert (Hlens : len (content ++ 60 :: 47 :: ename ++ erest) = len content + 2 + len ename + len erest) by (rewrite len_app, !len_cons, len_app; lia).
+  apply (loop_scan2 _ z has (len content)); [lia| | |eapply fuel_of_enough; [exact Hr|lia]].
+  - intros i Hi. destruct (peekz_in content i Hi) as (c & Hcc & Hci). rewrite Forall_forall in Hc. specialize (Hc c Hci).
+    unfold rawtext_body. rewrite pkr_mv0, (reads_pkr z _ i c Hr (peekz_app_l' _ _ _ _ Hcc)). cbn [rbind].
+    replace (c =? 60) with false by (symmetry; apply Z.eqb_neq; exact Hc). rewrite tmpl_at_none. cbn [rbind].
+    rewrite (reads_eof0_in z _ i c Hr (peekz_app_l' _ _ _ _ Hcc)). rewrite mv_mv. reflexivity.
+  - unfold rawtext_body. rewrite pkr_mv0, (reads_pkr z _ (len content) 60 Hr) by (rewrite peekz_app_r0; apply peekz_cons_0). cbn [rbind].
+    change (60 =? 60) with true.
+    rewrite pkr_mv, (reads_pkr z _ (len content + 1) 47 Hr) by (rewrite peekz_app_rk by lia; apply peekz_1). cbn [rbind].
+    change (47 =? 47) with true.
+    pose proof (reads_mv _ _ (len content + 2) Hr ltac:(lia)) as Hr2.
+    assert (Hsk : skipz (len content + 2) (content ++ 60 :: 47 :: ename ++ erest) = ename ++ erest).
+    { replace (content ++ 60 :: 47 :: ename ++ erest) with ((content ++ [60; 47]) ++ ename ++ erest) by (rewrite <- app_assoc; reflexivity).
+      replace (len content + 2) with (len (content ++ [60; 47])) by (rewrite len_app; reflexivity). apply skipz_app_len. }
+    rewrite Hsk in Hr2. rewrite mv_mv.
+    rewrite (letters_loop_reads _ ename erest Hr2 Hlet) by (right; rewrite Ee; eauto). cbn [rbind].
+    unfold hash_lexeme_from. destruct Hr2 as [Hw2 Hrem2].
+    destruct (rem_mv _ (len ename) Hw2) as [_ Hw3]; [rewrite Hrem2, len_app; lia|].
+    rewrite lexeme_from_spec by (exact Hw3 || (unfold mark; cbn [mv lpos lstart]; lia)). cbn [rbind].
+    assert (Hbytes : view_bytes (lbuf (mv (mv z (len content + 2)) (len ename)))
+                       (mkSl (lstart (mv (mv z (len content + 2)) (len ename)) + (mark (mv z (len content)) + 2))
+                             (lpos (mv (mv z (len content + 2)) (len ename)) - lstart (mv (mv z (len content + 2)) (len ename)) - (mark (mv z (len content)) + 2))) = ename).
+    { unfold view_bytes, mark. cbn [so sn mv lbuf lpos lstart].
+      replace (lstart z + (lpos z + len content - lstart z + 2)) with (lpos z + (len content + 2)) by lia.
+      replace (lpos z + (len content + 2) + (lpos z + (len content + 2) + len ename - lstart z - (lpos z + len content - lstart z + 2))) with (lpos z + (len content + 2 + len ename)) by lia.
+      rewrite (reads_slice z _ (len content + 2) (len content + 2 + len ename) Hr) by lia.
+      replace (content ++ 60 :: 47 :: ename ++ erest) with ((content ++ [60; 47]) ++ ename ++ erest) by (rewrite <- app_assoc; reflexivity).
+      replace (len content + 2) with (len (content ++ [60; 47])) by (rewrite len_app; reflexivity). apply slice_mid'. }
+    rewrite Hbytes, Hhash. cbn [rbind]. rewrite Z.eqb_refl.
+    unfold rewind, mark. cbn [mv lbuf lpos lstart]. do 3 f_equal. f_equal. lia.
+Qed.
+
+Lemma next_rawtext_nolt d l pre content ename erest h :
+  at_input d l pre (content ++ 60 :: 47 :: ename ++ erest) -> intag l = false -> rawtag l = h ->
+  h <> 0 -> h <> html_hash_Plaintext -> content <> [] -> Forall (fun c => c <> 60) content ->
+  Forall (fun c => is_letter c = true) ename -> to_hash (map lower ename) = Ok h ->
+  (exists c r, erest = c :: r /\ is_letter c = false) ->
+  exists l', next no_tmpl l = Ok (TextT, Some (mkSl (len pre) (len content)), l') /\
+    ltext l' = Some (mkSl (len pre) (len content)) /\ lbuf (lz l') = lbuf (lz l) /\
+    intag l' = false /\ rawtag l' = 0 /\ lerr l' = lerr l.
+Proof.
+  intros Hat Hit Hraw Hh0 Hnp Hne Hc Hlet Hhash Herest. pose proof (at_input_reads _ _ _ _ Hat) as Hr.
+  destruct Hat as (Hi & Hcl & Hd & Hp). pose proof (len_nonneg content).
+  assert (Hcpos : 0 < len content) by (destruct content; [congruence|rewrite len_cons; pose proof (len_nonneg content); lia]).
+  unfold next. cbn [lz rawtag intag lerr ltext lattr lhas]. rewrite Hit, Hraw.
+  replace (negb (h =? 0)) with true by (symmetry; apply negb_true_iff, Z.eqb_neq; exact Hh0).
+  unfold shift_rawtext. replace (h =? html_hash_Plaintext) with false by (symmetry; apply Z.eqb_neq; exact Hnp).
+  rewrite (rawtext_loop_nolt h _ content ename erest false Hr Hc Hlet Hhash Herest) by lia. cbn [rbind fst snd].
+  assert (Hw2 : lx_wf (mkLx (lbuf (lz l)) (lpos (lz l) + len content) (lstart (lz l)))).
+  { destruct (reads_mv _ _ (len content) Hr) as [Hw _]; [rewrite len_app; pose proof (len_nonneg (60 :: 47 :: ename ++ erest)); lia|]. exact Hw. }
+  rewrite shiftv_spec by exact Hw2. cbn [rbind fst snd lstart lpos so sn skip lbuf]. rewrite Hcl, Hp.
+  replace (len pre + len content - len pre) with (len content) by lia.
+  replace (0 <? len content) with true by (symmetry; apply Z.ltb_lt; lia).
+  eexists. split; [reflexivity|]. cbn [ltext lz intag rawtag lerr lbuf]. repeat split.
+Qed.
